@@ -35,7 +35,10 @@ t = ("\n### 10.5 Which check catches which seeded change\n\n"
      "single elements and unusual numeric types; behaviour after an exception or before the simulation started). One change of that "
      "round (C17-9) is recorded as *not caught and not chased*, with the reason; `-11`/`-12` from a sixth round (hints: clause by clause, "
      "boundary comparisons, state across the phases of an object's life, values computed once that should follow a public attribute, "
-     "interplay with the kernel inside one instant, several things mapped onto one slot). A patch that no longer applied after a later repair of /repo was re-written "
+     "interplay with the kernel inside one instant, several things mapped onto one slot), `-13`/`-14` from a seventh, partial round for six properties (C07, C09, C11, C16, C18, C19; hints: "
+     "public methods and optional parameters a workload generator never uses, results wrong only for an exact relation between two values, "
+     "accumulated floating-point error, the order in which objects are constructed and connected, collections holding exactly two or zero "
+     "entries). A patch that no longer applied after a later repair of /repo was re-written "
      "against the repaired file (`patch.orig.diff` keeps the author's diff). The *caught by* column is the result with the machinery as committed "
      "(`tools/seed_recheck.py --update`; the result at ingest time is kept in each meta.json as `checks_at_ingest`). The column *missed at first* marks changes no check caught when they came "
      "in; each led to a stronger monitor (what was changed is in `seeded/missed_first.json` and in section 8):\n\n")
